@@ -9,31 +9,31 @@ use crate::ThreadKey;
 
 vharness! {
 #[kani::unwind(6)]
-fn probe_o1() {
-	let b1 = BoxedLockCollection::new(<[M; 2] as Make<2>>::make([0; 2]));
-	let b2 = BoxedLockCollection::new(<[M; 2] as Make<2>>::make([0; 2]));
-	let data = (b2, b1);
-	let r = RefLockCollection::new(&data);
-	assert!(cp::ref_locks(&r).len() == 4 && strictly_sorted(cp::ref_locks(&r)), "C08_ref_new_sorts_by_address");
-	kani::cover!(true, "end");
+fn probe_nr_a() {
+	let u = <[M; 3] as Make<3>>::make([0; 3]);
+	let (a, b, c) = (1, 0, idx::<3>());
+	let inner_members = [&u[a], &u[b]];
+	let inner = RefLockCollection::try_new(&inner_members).unwrap();
+	let dup = c == a || c == b;
+	let r = BoxedLockCollection::try_new((&inner, &u[c]));
+	assert!(r.is_none() == dup, "C07_x");
+	kani::cover!(dup, "dup");
+	kani::cover!(!dup, "nodup");
 }}
 vharness! {
 #[kani::unwind(6)]
-fn probe_o2() {
-	let b1 = BoxedLockCollection::new(<[M; 2] as Make<2>>::make([0; 2]));
-	let b2 = BoxedLockCollection::new(<[M; 2] as Make<2>>::make([0; 2]));
-	let lo = addr_of(&b1.child()[0]);
-	let hi = addr_of(&b2.child()[0]);
-	assert!(lo < hi, "C08_probe_alloc_order_ascending");
-	kani::cover!(true, "end");
-}}
-vharness! {
-#[kani::unwind(6)]
-fn probe_o3() {
-	let o = OwnedLockCollection::new(<[M; 2] as Make<2>>::make([0; 2]));
-	let single = new_m(5, 0);
-	let c = BoxedLockCollection::try_new((&single, &o)).unwrap();
-	let locks = cp::boxed_locks(&c);
-	assert!(locks.len() == 2 && strictly_sorted(locks), "C08_owned_collection_is_one_entry_in_the_order");
-	kani::cover!(true, "end");
+fn probe_nr_b() {
+	let u = <[M; 3] as Make<3>>::make([0; 3]);
+	let (a, b, c) = (0, 1, idx::<3>());
+	let inner_members = [&u[a], &u[b]];
+	let inner = RefLockCollection::try_new(&inner_members).unwrap();
+	let dup = c == a || c == b;
+	let r = BoxedLockCollection::try_new((&inner, &u[c]));
+	assert!(r.is_none() == dup, "C07_x");
+	if let Some(o) = &r {
+		let locks = cp::boxed_locks(o);
+		assert!(locks.len() == 3 && strictly_sorted(locks), "C08_y");
+	}
+	kani::cover!(dup, "dup");
+	kani::cover!(!dup, "nodup");
 }}
